@@ -319,6 +319,12 @@ def run(ctx):
     if hw:
         fm = [c for c in nonforeign_calls(hw) if c.fn is hw and "Buffer::format" in (c.resolved or "")]
         ok = len(fm) == 1 and fm[0].is_("ryu::buffer::Buffer::format", "Buffer::format") and not fm[0].is_("Buffer::format_finite")
+        # every payload the splitter closes carries the type it was called with: a write of the metric-type parameter
+        # dominates each commit (a literal token would make continuation payloads another metric type)
+        cms_ = [c for c in nonforeign_calls(hw) if c.fn is hw and c.is_("PayloadWriter::commit")]
+        tps_ = [c for c in buf_ops(hw) if c.fn is hw and c.is_("Vec<T, A>::push", "extend_from_slice") and any(isinstance(x, tuple) and x[:2] == ("arg", 3) for x in sym_walk(arg_syms(c)[1]))]
+        untyped = [c for c in cms_ if not any(hw.body.dominates(t.bb, c.bb) and not (in_cycle(hw.body, c.bb) and not in_cycle(hw.body, t.bb)) for t in tps_)]
+        chk.ob("C09.e", f"{hw.path} [type token per payload]", bool(cms_) and not untyped, f"{len(cms_)} commit site(s), each after a write of the metric_type parameter" if cms_ and not untyped else "a payload is closed without writing the metric_type parameter: it goes out under a fixed type token, whatever metric was written", untyped[0].loc() if untyped else hw.loc())
         chk.ob("C09.e", f"{hw.path} [value formatter]", ok, "histogram values through ryu::Buffer::format" if ok else "histogram values are not rendered with ryu::Buffer::format (format_finite prints garbage for NaN/inf)", hw.loc())
     wt = d.fn(f"{D}::writer::write_metric_trailer")
     if need(chk, "C09.e", "write_metric_trailer", wt):
